@@ -55,7 +55,15 @@ func init() {
 			setCurrent("planar.CentroidArea", e)
 			var cen orb.Point
 			var a, a2 float64
-			site := guard(func() { cen, a = planar.CentroidArea(g); a2 = planar.Area(g) })
+			// the geometry is carved out of one coordinate buffer, and the other (read-only) measures are taken first:
+			// none of them may disturb what the next one sees
+			g = sharedBuffer(g)
+			site := guard(func() {
+				planar.DistanceFrom(g, orb.Point{float64(iv(8)), float64(iv(8))})
+				planar.Length(g)
+				cen, a = planar.CentroidArea(g)
+				a2 = planar.Area(g)
+			})
 			if site != "" {
 				c.emit(panicEvent("planar.CentroidArea", site, e))
 				return
